@@ -134,3 +134,172 @@ Proof.
   injection H as <-. assert (L : len_ok (psid_encode p)) by (unfold len_ok; lia).
   repeat split; [eapply psid_from_api_wf; eassumption|apply psid_fits; exact L|exact L].
 Qed.
+
+(* ------------------------------------------------------------------ *)
+(* TUNNEL_ENCAP                                                         *)
+Theorem te_from_api_total : forall x, exists r, from_api_te x = Ok r.
+Proof.
+  intros x. unfold from_api_te. destruct (te_from_api x) as [l|]; [|eexists; reflexivity].
+  unfold new_with_bin. cbn. destruct (65535 <? _); eexists; reflexivity.
+Qed.
+
+Lemma ebs_from_api_wf : forall e e', ebs_from_api e = Some e' -> wf_ebs e'.
+Proof.
+  intros [beh bl nl fl al] e' H. cbn in H. destruct (_ || _) eqn:E in H; [discriminate|]. injection H as <-.
+  unb. cbn. lia.
+Qed.
+
+Lemma flag_bit_le : forall b v, flag_bit b v <= v.
+Proof. intros [|] v; cbn; lia. Qed.
+
+Lemma segflags_lt : forall f, segflags f < 256.
+Proof.
+  intros [[[[v a] s] b]|]; cbn [segflags]; [|lia].
+  pose proof (flag_bit_le v 128). pose proof (flag_bit_le a 64). pose proof (flag_bit_le s 32). pose proof (flag_bit_le b 16). lia.
+Qed.
+
+Lemma seg_from_api_wf : forall x g, api_seg_in_range x -> seg_from_api x = Some g -> wf_seg g.
+Proof.
+  intros [|fl label|fl sid e] g Hr H; cbn in H, Hr; [discriminate| |].
+  - destruct (1048575 <? label) eqn:E in H; [discriminate|]. injection H as <-. unb. cbn.
+    pose proof (segflags_lt fl). lia.
+  - destruct (negb _) eqn:E in H; [discriminate|]. unb. pose proof (segflags_lt fl).
+    destruct e as [e'|].
+    + destruct (ebs_from_api e') as [e''|] eqn:E2; [|discriminate]. injection H as <-. cbn.
+      repeat split; try assumption. eapply ebs_from_api_wf; eassumption.
+    + injection H as <-. cbn. repeat split; assumption.
+Qed.
+
+Lemma of_be32_div : forall a b c d, a < 256 -> b < 256 -> c < 256 -> d < 256 -> of_be32 a b c d / 4096 < 1048576.
+Proof. intros. unfold of_be32. lia. Qed.
+
+Lemma Forall_snoc : forall {A} (P : A -> Prop) l x, Forall P l -> P x -> Forall P (l ++ [x]).
+Proof. intros. apply Forall_app. split; [assumption|constructor; [assumption|constructor]]. Qed.
+
+Lemma cp_step_wf : forall cp s cp', wf_cp cp -> api_te_sub_in_range s -> cp_step cp s = Some cp' -> wf_cp cp'.
+Proof.
+  intros [pref bsid bsid6 enlp prio segs name pname] s cp' [W1 [W2 [W3 [W4 [W5 [W6 [W7 W8]]]]]]] Hr H.
+  cbn [cp_pref cp_bsid cp_bsid6 cp_enlp cp_prio cp_segs cp_name cp_pname] in *.
+  destruct s as [| |f p| |sf i_ sid|sf i_ bf sid e|f e|p|n|w gs|t v]; cbn [cp_step] in H; cbn in Hr; try discriminate.
+  - destruct (_ || _) eqn:E in H; [discriminate|]. injection H as <-. unb.
+    unfold wf_cp; cbn; repeat split; try assumption; lia.
+  - destruct sid as [|a [|b [|c [|d [|? ?]]]]]; try discriminate.
+    destruct (_ || _) eqn:E in H; [discriminate|]. injection H as <-. unb.
+    inversion Hr as [|? ? Ha Hr1]; subst. inversion Hr1 as [|? ? Hb Hr2]; subst.
+    inversion Hr2 as [|? ? Hc Hr3]; subst. inversion Hr3 as [|? ? Hd _]; subst.
+    pose proof (flag_bit_le sf 128). pose proof (flag_bit_le i_ 64).
+    pose proof (of_be32_div a b c d Ha Hb Hc Hd).
+    unfold wf_cp; cbn; repeat split; try assumption; lia.
+  - destruct (negb _) eqn:E in H; [discriminate|]. unb.
+    pose proof (flag_bit_le sf 128). pose proof (flag_bit_le i_ 64). pose proof (flag_bit_le bf 32).
+    destruct e as [e'|].
+    + destruct (ebs_from_api e') as [e''|] eqn:E2; [|discriminate]. destruct (once bsid6); [|discriminate].
+      injection H as <-. pose proof (ebs_from_api_wf _ _ E2).
+      unfold wf_cp; cbn; repeat split; try assumption; lia.
+    + destruct (once bsid); [|discriminate]. injection H as <-.
+      unfold wf_cp; cbn; repeat split; try assumption; lia.
+  - destruct (_ || _) eqn:E in H; [discriminate|]. injection H as <-. unb.
+    unfold wf_cp; cbn; repeat split; try assumption; lia.
+  - destruct (_ || _) eqn:E in H; [discriminate|]. injection H as <-. unb.
+    unfold wf_cp; cbn; repeat split; try assumption; lia.
+  - destruct (once name); [|discriminate]. injection H as <-.
+    unfold wf_cp; cbn; repeat split; assumption.
+  - destruct Hr as [Hw Hg].
+    destruct (match w with Some (f, _) => 255 <? f | None => false end) eqn:E in H; [discriminate|].
+    destruct (opt_all seg_from_api gs) as [l|] eqn:E2; [|discriminate]. injection H as <-.
+    unfold wf_cp; cbn; repeat split; try assumption.
+    apply Forall_snoc; [assumption|]. cbn. split.
+    + destruct w as [[f x]|]; cbn in *; [unb; lia|trivial].
+    + eapply (opt_all_Forall seg_from_api api_seg_in_range wf_seg); [|exact Hg|exact E2].
+      intros x0 y0 HP HE. exact (seg_from_api_wf x0 y0 HP HE).
+  - destruct (_ && _) eqn:E in H; [|discriminate]. injection H as <-. unb.
+    unfold wf_cp; cbn; repeat split; assumption.
+Qed.
+
+Lemma cp_steps_wf : forall subs cp cp', wf_cp cp -> Forall api_te_sub_in_range subs -> cp_steps cp subs = Some cp' -> wf_cp cp'.
+Proof.
+  induction subs as [|s r IH]; intros cp cp' W Hr H; cbn in H.
+  - injection H as <-. exact W.
+  - destruct (cp_step cp s) as [cp1|] eqn:E; [|discriminate]. inversion Hr; subst.
+    eapply IH; [eapply cp_step_wf; eassumption|assumption|exact H].
+Qed.
+
+Lemma raw_values_ok : forall subs v, Forall api_te_sub_in_range subs -> raw_values subs = Some v -> bytes_ok v.
+Proof.
+  induction subs as [|s r IH]; intros v Hr H; cbn in H.
+  - injection H as <-. constructor.
+  - destruct s; try discriminate. destruct (raw_values r) as [l|] eqn:E; [|discriminate]. injection H as <-.
+    inversion Hr as [|? ? Hs Hrr]; subst. cbn in Hs. apply bytes_ok_app; [assumption|apply IH; [assumption|reflexivity]].
+Qed.
+
+Lemma wf_cp_empty : wf_cp cp_empty.
+Proof. unfold wf_cp, cp_empty; cbn. repeat split; trivial. Qed.
+
+Lemma te_from_api_wf : forall x l, api_te_in_range x -> te_from_api x = Some l -> wf_te l.
+Proof.
+  intros x l Hr H. unfold te_from_api in H.
+  eapply (opt_all_Forall te_tlv_from_api _ wf_te_tlv); [|exact Hr|exact H].
+  intros [t subs] y Hs E. cbn [snd] in Hs. cbn [te_tlv_from_api] in E.
+  destruct (65535 <? t) eqn:E1 in E; [discriminate|]. destruct (t =? SR_POLICY) eqn:E2 in E.
+  - destruct (cp_steps cp_empty subs) as [cp|] eqn:E3; [|discriminate]. injection E as <-. cbn.
+    eapply cp_steps_wf; [exact wf_cp_empty|exact Hs|exact E3].
+  - destruct (raw_values subs) as [v|] eqn:E3; [|discriminate]. injection E as <-. unb. cbn.
+    repeat split; [lia|assumption|eapply raw_values_ok; eassumption].
+Qed.
+
+Lemma length_be16 : forall v, length (be16 v) = 2%nat.
+Proof. reflexivity. Qed.
+
+Lemma seg_value_small : forall g, wf_seg g -> N.of_nat (length (seg_value g)) < 256.
+Proof.
+  intros [f l|f sid e] H; cbn [seg_value length].
+  - rewrite length_be32. lia.
+  - destruct H as [_ [Hl _]]. rewrite app_length, Hl. destruct e as [[beh bl nl fl al]|]; cbn [ebs_seg_bytes].
+    + rewrite app_length, length_be16. cbn [length]. lia.
+    + cbn [length]. lia.
+Qed.
+
+Lemma te_fits_of_len : forall l, wf_te l -> N.of_nat (length (te_encode l)) < 65536 -> te_fits l.
+Proof.
+  intros l W H. unfold te_fits. apply Forall_forall. intros t Ht.
+  pose proof (flat_map_length_In te_tlv_bytes l t Ht) as L. unfold te_encode in H.
+  assert (L1 : length (te_tlv_bytes t) = (4 + length (te_tlv_value t))%nat).
+  { unfold te_tlv_bytes. rewrite !app_length, !length_be16. reflexivity. }
+  split; [lia|]. destruct t as [cp|ty v]; [|trivial].
+  assert (Wc : wf_cp cp) by (exact (proj1 (Forall_forall _ _) W _ Ht)).
+  cbn [te_tlv_value] in L1.
+  assert (L2 : (length (opt_bytes (cp_name cp) (fun n => tlv16 129%N (0%N :: n)))
+                + length (opt_bytes (cp_pname cp) (fun n => tlv16 130%N (0%N :: n)))
+                + length (flat_map (fun sl => tlv16 128%N (seglist_value sl)) (cp_segs cp)) <= length (cp_bytes cp))%nat).
+  { unfold cp_bytes. rewrite !app_length. lia. }
+  split; [|split].
+  - destruct (cp_name cp) as [n|]; cbn [wf_opt opt_bytes] in *; [|trivial]. rewrite length_tlv16 in L2. cbn [length] in L2. lia.
+  - destruct (cp_pname cp) as [n|]; cbn [wf_opt opt_bytes] in *; [|trivial]. rewrite length_tlv16 in L2. cbn [length] in L2. lia.
+  - destruct Wc as [_ [_ [_ [_ [_ [Ws _]]]]]]. apply Forall_forall. intros sl Hsl.
+    pose proof (flat_map_length_In (fun sl => tlv16 128 (seglist_value sl)) (cp_segs cp) sl Hsl) as L3.
+    cbn beta in L3. rewrite length_tlv16 in L3. split; [lia|].
+    pose proof (proj1 (Forall_forall _ _) Ws sl Hsl) as [_ Wg].
+    eapply Forall_impl; [|exact Wg]. exact seg_value_small.
+Qed.
+
+Theorem te_accepted_wf : forall x a, api_te_in_range x -> from_api_te x = Ok (Some a) ->
+  exists l, te_from_api x = Some l /\ a = mkAttr TUNNEL_ENCAP 192 (DBin (te_encode l)) /\
+            wf_te l /\ te_fits l /\ len_ok (te_encode l).
+Proof.
+  intros x a Hr H. unfold from_api_te in H. destruct (te_from_api x) as [l|] eqn:E; [|discriminate].
+  exists l. cbn in H. destruct (N.ltb_spec 65535 (N.of_nat (length (te_encode l)))); [discriminate|].
+  injection H as <-. assert (L : len_ok (te_encode l)) by (unfold len_ok; lia).
+  pose proof (te_from_api_wf x l Hr E) as W.
+  repeat split; [exact W|apply te_fits_of_len; [exact W|exact L]|exact L].
+Qed.
+
+(* the fixed sub-TLV bodies of a well-formed candidate path fit their one-octet lengths *)
+Lemma cp_fixed_bodies : forall cp, wf_cp cp ->
+  wf_opt (fun x => match x with BsMpls _ _ => True | BsSrv6 f sid => length (f :: 0 :: sid) = 18%nat end) (cp_bsid cp) /\
+  wf_opt (fun x => match x with (f, sid, Ebs beh bl nl fl al) => length (f :: 0 :: sid ++ be16 beh ++ [bl; nl; fl; al]) = 24%nat end) (cp_bsid6 cp).
+Proof.
+  intros cp [_ [W2 [W3 _]]]. split.
+  - destruct (cp_bsid cp) as [[f l|f sid]|]; cbn in *; try trivial. destruct W2 as [_ [Hl _]]. rewrite Hl. reflexivity.
+  - destruct (cp_bsid6 cp) as [[[f sid] [beh bl nl fl al]]|]; cbn in *; [|trivial]. destruct W3 as [_ [Hl _]].
+    rewrite app_length, Hl. reflexivity.
+Qed.
